@@ -500,7 +500,7 @@ struct C08 : Driver {
   const char *prop() const override { return "C08"; }
   const char *level() const override { return "exploration"; }
   uint64_t ncases(int tier) const override { return tier ? 20000 : 3000; }
-  const char *variants(int tier) const override { return tier ? "asan asan-ndebug vg/40" : "asan asan-ndebug vg/12"; }   // vg: plain build under valgrind memcheck (uninitialised-value decisions, uninitialised output bytes)
+  const char *variants(int tier) const override { return tier ? "asan asan-ndebug vg/40" : "asan asan-ndebug/2 vg/12"; }   // vg: plain build under valgrind memcheck (uninitialised-value decisions, uninitialised output bytes)
   std::string rule() const override {
     return "case = compression+decompression, decompression of valid/defective/truncated/planted streams with input block sizes down to 4 bytes and output buffers down to 1 byte, or -cdf copy, any -n, seeded schedule, "
            "executed in the AddressSanitizer+UndefinedBehaviorSanitizer build (assertions on, and again with -DNDEBUG) and, for a fraction of the cases, as the plain build under valgrind memcheck (variant vg: fresh heap blocks and recycled "
